@@ -99,6 +99,32 @@ def save_unit(fb, d, memo):
     return d, dest, None
 
 
+def rule_tmp_names(chk, fb, eps, rid):
+    """The temporary name can never coincide with a destination, and two destinations never share one: the extension it
+    is given is built from the destination's own extension ("xlsx" -> "xlsxtmp"); a constant extension ("tmp") collides
+    with a destination that already carries it and makes book.xlsx and book.xlsm share one temporary file."""
+    r = chk.rule(
+        rid,
+        "temporary names are private to their destination: wherever a save path derives its temporary name with Path::with_extension, the new extension is computed from the destination's own extension (or file name), not a constant",
+        floor=5,
+    )
+    memo, tmemo = {}, {}
+    for d in eps:
+        unit = save_unit(fb, d, memo)[0]
+        b = fb.mir[unit]
+        fl = Flow(fb, b)
+        name_bodies = [(unit, b, fl)] + [(f, fb.mir[f], Flow(fb, fb.mir[f])) for f in sorted({t.get("fn", "") for _, t in fl.calls()}) if f in fb.mir and returns_tmp(fb, f, tmemo)]
+        nx = 0
+        for nf, nb, nfl in name_bodies:
+            for bi, t in nfl.calls(lambda t: t.get("fn", "").endswith("Path::with_extension")):
+                at = nfl.atoms(t["args"][1]) if len(t["args"]) > 1 else set()
+                own_ext = any(a[0] == "call" and a[1].endswith(("Path::extension", "Path::file_name")) for a in at)
+                chk.touch(d, unit)
+                chk.ob(r, "%s:tmp-name#%d" % (d, nx), own_ext, where="%s:%s" % (nb["file"], t.get("ln")),
+                       detail="temporary name = destination with an extension %s" % ("built from the destination's own extension" if own_ext else "that does NOT depend on the destination's extension (%s): it equals the destination for some destinations and is shared by destinations that differ only in extension" % sorted(str(a[1])[:20] for a in at if a[0] == "const")))
+                nx += 1
+
+
 def rule_temp_rename(chk, fb, eps):
     ra = chk.rule(
         "C13.a",
@@ -116,6 +142,11 @@ def rule_temp_rename(chk, fb, eps):
             efl = Flow(fb, eb)
             ok = any(a[0] == "call" and a[2] == via[0] for a in efl.atoms(0))
             chk.ob(ra, "%s:delegates" % d, ok, where="%s:%s" % (eb["file"], via[1]["ln"]), detail="the entry point hands its destination to %s and returns its result: %s" % (unit.split("::")[-1], ok))
+            # ... and to nothing else that writes files: two atomic saves in a row are not one atomic save (the destination is
+            # replaced by the first before the second can fail)
+            others = sorted({t.get("fn", "").split("::")[-1] for bi2, t in efl.calls() if bi2 != via[0] and t.get("fn", "") in fb.mir and t["fn"] != unit
+                             and any(c in fb.reachable_from([t["fn"]]) or c == t["fn"] for c in list(CREATORS) + ["std::fs::rename"])})
+            chk.ob(ra, "%s:single-step" % d, not others, where=fb.loc(d), detail="other file-writing steps in the entry point besides %s: %s" % (unit.split("::")[-1], others or "none"))
         b = fb.mir[unit]
         fl = Flow(fb, b)
         cfg = CFG(b)
@@ -436,6 +467,7 @@ def run(chk, fb, tier):
     for d in eps:
         chk.ob("C13.anchor", "entry:%s" % d, True, where=fb.loc(d), nontrivial=False)
     rule_temp_rename(chk, fb, eps)
+    rule_tmp_names(chk, fb, eps, "C13.a.name")
     rule_flush(chk, fb, eps)
     rule_stream_flush(chk, fb, eps)
     rule_results(chk, fb, eps)
